@@ -24,6 +24,8 @@ CHECKS = {
          "The unmodified main() registers its UEs against the AMF of the specification executed by TLC: every uplink message is decoded (Per/Ngap/Nas24501 in TLA+) and judged by Amf!AmfHandle (TS 38.413 tables, identifiers, SUCI/PLMN, RES* = XRES* from Milenage/KDF in TLA+, header types, MAC under the network's keys, COUNT = previous + 1), downlink messages are built and protected by the spec; exit status and banner judged at the end."),
  "C02": ("TLC runs the specification's AMF/SMF online against the real emulator process for complete test-mode runs; exhaustive TLC model checking of the abstract system spec (Stg.tla)",
          "As C01 for all five loops and several UEs: PDU session identity consistency across 5GSM header / NAS transport IE / NGAP response, prerequisites (session and registration state machine of the AMF), COUNT per UE, GTP address of the response transfer, reported (UE IP, TEID, UPF) = assigned (hook H2), procedure counts = the Min() clamps of the main program."),
+ "C19": ("fault enumeration driven by the TLA+ spec: TLC-as-AMF injects close/garbage at every downlink index of real emulator runs; exhaustive TLC model checking of Stg.tla with both fault kinds (FailStopSafe, Terminates)",
+         "For every downlink message index of a complete test-mode conversation the specification's AMF closes the association instead of answering, and for every consumed answer it sends bytes Per!PerDecode rejects; TLC judges that the real process exits non-zero in bounded time, prints no banner and reports no session it did not obtain; the abstract model is checked exhaustively for the same properties incl. liveness."),
 }
 NA = {}
 def main():
